@@ -180,12 +180,33 @@ impl HookMonitor {
 }
 
 /// Seeded history over the corpus: small working set, heavy repetition, aliases first or target first.
+/// entries that differ only in their outermost constructor (`Range<u8>` / `RangeInclusive<u8>`, `Vec<X>` / `BTreeSet<X>` ...)
+fn sibling_key(text: &str) -> &str {
+    match text.find('<') {
+        Some(p) => &text[p..],
+        None => "",
+    }
+}
+
 pub fn gen_history(es: &[Entry], by_shallow: &HashMap<&'static str, Vec<usize>>, rng: &mut Rng, only_reg: bool) -> Vec<Op> {
     let ws_n = rng.range(1, 8);
     let mut ws: Vec<usize> = Vec::new();
     for _ in 0..ws_n {
         let i = rng.below(es.len());
         ws.push(i);
+        // bring in a sibling: same arguments under another outermost constructor
+        if rng.chance(1, 3) && !sibling_key(es[i].text).is_empty() {
+            let k = sibling_key(es[i].text);
+            let sibs: Vec<usize> = es.iter().enumerate().filter(|(j, e)| *j != i && sibling_key(e.text) == k).map(|(j, _)| j).collect();
+            if !sibs.is_empty() {
+                let j = *rng.pick(&sibs);
+                if rng.flip() {
+                    ws.push(j);
+                } else {
+                    ws.insert(0, j);
+                }
+            }
+        }
         // bring in aliases of the same canonical identity
         if rng.chance(1, 3) {
             if let Some(al) = by_shallow.get(es[i].shallow) {
